@@ -122,6 +122,14 @@ func (g *commonGen) template(w *World, name string, b int) []Step {
 		if g.r.Bool() {
 			out = append(out, Step{Kind: "logout", B: b}, Step{Kind: "otp_login", B: b, A: a, Sec: &SecretRef{Kind: "otp", A: a, Idx: -1}})
 		}
+		if g.r.Bool() {
+			// use one that is not the newest, then present it again from another browser
+			k := g.r.Intn(3)
+			ob := (b + 1) % len(w.Browsers)
+			out = append(out, Step{Kind: "otp_add", B: b, A: a}, Step{Kind: "otp_add", B: b, A: a}, Step{Kind: "logout", B: b},
+				Step{Kind: "otp_login", B: b, A: a, Sec: &SecretRef{Kind: "otp", A: a, Idx: k}},
+				Step{Kind: "otp_login", B: ob, A: a, Sec: &SecretRef{Kind: "otp", A: a, Idx: k}})
+		}
 		return out
 	case "otp_fill":
 		// log in and add one-time passwords up to and beyond the limit
@@ -330,6 +338,35 @@ func (g *commonGen) template(w *World, name string, b int) []Step {
 			out = append(out, Step{Kind: "sms_confirm", B: b, A: a, Sec: &SecretRef{Kind: "sms", A: -1, Idx: -1 - g.r.Intn(2)}})
 		}
 		return out
+	case "everify_link_elsewhere":
+		// the mailed 2FA authorisation link is opened where no fully authenticated session exists
+		kind := "totp"
+		if !c.hasSetup("totp") {
+			kind = "sms"
+		}
+		ob := (b + 1) % len(w.Browsers)
+		out := []Step{{Kind: "login", B: b, A: a, Sec: pw(a)}, {Kind: "everify_start", B: b, A: a, Str: map[string]string{"kind": kind}}}
+		open := Step{Kind: "everify_end", B: ob, A: a, Sec: &SecretRef{Kind: "everify", A: a, Idx: -1}, Str: map[string]string{"kind": kind}}
+		if g.r.Bool() {
+			out = append(out, Step{Kind: "logout", B: b})
+			open.B = b
+		}
+		return append(out, open)
+	case "spent_recovery_remove":
+		// finish a login with a recovery code, then try to disable the factor with the same code
+		for i := range w.Accts {
+			if w.KB.SMSNumber[i] != "" || w.KB.TOTPSecret[i] != "" {
+				a = i
+			}
+		}
+		kind := "totp"
+		if a < len(w.Accts) && w.KB.TOTPSecret[a] == "" {
+			kind = "sms"
+		}
+		k := g.r.Intn(3)
+		return []Step{{Kind: "login", B: b, A: a, Sec: pw(a)},
+			{Kind: kind + "_validate", B: b, A: a, Sec: &SecretRef{Kind: "recovery", A: a, Idx: k}},
+			{Kind: kind + "_remove", B: b, A: a, Sec: &SecretRef{Kind: "recovery", A: a, Idx: k}}}
 	case "everify_probe":
 		// try to obtain the e-mail authorisation without the mail
 		kind := "totp"
